@@ -474,7 +474,12 @@ pub(crate) fn init_well_known_vars(
 
     // SHLVL
     let input_shlvl = shell.env_str("SHLVL").unwrap_or_else(|| "0".into());
-    let updated_shlvl = input_shlvl.as_ref().parse::<u32>().unwrap_or(0) + 1;
+    let updated_shlvl = input_shlvl
+        .as_ref()
+        .parse::<u32>()
+        .unwrap_or(0)
+        .checked_add(1)
+        .unwrap_or(1);
     let mut shlvl_var = ShellVariable::new(updated_shlvl.to_string());
     shlvl_var.export();
     shell.env_mut().set_global("SHLVL", shlvl_var)?;
